@@ -37,7 +37,8 @@ BINARIES = {
 # instrumented copies (tools/goinstr) that replace package files in the overlay: name -> [(package dir, [files], rename-main)]
 INSTRUMENT = {
     "c10": [("ipfix", ["memcache.go"], None), ("netflow/v9", ["memcache.go"], None)],
-    "c10nr": [("ipfix", ["memcache.go", "decoder.go"], None), ("netflow/v9", ["memcache.go", "decoder.go"], None)],
+    # sequential use: only the environment seams (clock), no scheduling points - channel operations keep their real semantics
+    "c10nr": [("ipfix", ["memcache.go", "decoder.go"], "SEAMS"), ("netflow/v9", ["memcache.go", "decoder.go"], "SEAMS")],
     # package main is rewritten completely; the decoder packages only get their sync / sync/atomic imports redirected
     # (none today: a pooled scratch buffer introduced there becomes a deterministic, explorable pool)
     "pipe": [("vflow", ["ipfix.go", "sflow.go", "netflow_v5.go", "netflow_v9.go", "vflow.go", "ipfix_unix.go", "sflow_unix.go"], "vflowMain;GetOptions=zzGetOptions,NewSFlow=zzNewSFlow,NewIPFIX=zzNewIPFIX,NewNetflowV5=zzNewNetflowV5,NewNetflowV9=zzNewNetflowV9"),
@@ -313,7 +314,7 @@ def c20(tier):
     res = [run_space(b, "model.entries", tier, env=env), run_space(b, "model.decode", tier, env=env)]
     res.append(run_space(build("flow"), "ipfix.typeinfo", tier))
     return finish("C20", tier, res,
-                  rule="model.entries: one case per element of the union of the built-in table, the table produced by LoadExtElements on scripts/ipfix.elements and the registry snapshot (402): present in all, same name and type, FieldID = key id, type NAME (read from the Go source text and from the YAML) recognised and equal to the snapshot, table unchanged when the file is absent. "
+                  rule="model.entries: one case per element of the union of the built-in table, the table produced by LoadExtElements on scripts/ipfix.elements and the registry snapshot (402): present in all, same name and type, FieldID = key id, type NAME (read from the Go source text and from the YAML) recognised and equal to the snapshot, table unchanged when the file is absent and when it is present but unusable (a directory in its place, not YAML, YAML of another shape, the shipped file cut short). "
                        "model.decode: every element x {natural/fixed length, 1 octet, variable length} x 3 value patterns decoded under both tables (identical) and against the reference interpretation of the snapshot type. ipfix.typeinfo: the model also stays what it is at RUN TIME - for every element an RFC 5610 type-information record claiming another data type is decoded (as ordinary option data), the element is still decoded by the model and its entry is unchanged. Non-trivial = every element / case.",
                   assumptions=["the registry snapshot /verif/models/ipfix_registry.json was taken from the pinned tree's shipped file (the IANA registry is not reachable offline): drift and disagreement are detected, a transcription error common to both tables and the snapshot is not"], t0=t0)
 
@@ -418,7 +419,7 @@ def c11(tier):
             shutil.rmtree(other_fs, ignore_errors=True)
     res.append(aging_space())
     return finish("C11", tier, res,
-                  rule="per protocol: roundtrip: 6 (thorough 40) cache contents reached by decoding announcements (0..240 templates; plain/options/enterprise/variable-length; IPv4-mapped, 4-byte and IPv6 exporters) dumped, loaded, every key probed with a well-formed data message and compared with the live cache, second generation identical; the same content saved by ANOTHER process and loaded by this one (a restart is never the same process); a smaller cache saved over a longer file; the whole round trip repeated with the cache file on another filesystem than the temporary directory (tmpfs /dev/shm, where present); a run that starts from the file, sees a third of its templates re-announced with another definition (no new key) and saves; "
+                  rule="per protocol: roundtrip: 7 (thorough 41) cache contents incl. one of 7000 templates (a file of several MiB) reached by decoding announcements (0..240 templates; plain/options/enterprise/variable-length; IPv4-mapped, 4-byte and IPv6 exporters) dumped, loaded, every key probed with a well-formed data message and compared with the live cache, second generation identical; the same content saved by ANOTHER process and loaded by this one (a restart is never the same process); a smaller cache saved over a longer file; the whole round trip repeated with the cache file on another filesystem than the temporary directory (tmpfs /dev/shm, where present); a run that starts from the file, sees a third of its templates re-announced with another definition (no new key) and saves; "
                        "crash: every image the observed write history of Dump can leave (old file, empty, EVERY byte prefix, prefixes zero-filled to 512/4096-octet boundaries and to full length, complete) - loaded cache must be a subset of the saved one and usable; "
                        "bytes: every position x 13 substitution octets, every single-octet deletion and duplication; struct: 28 Cache shapes x 11 ShardNo forms x 2 key orders + absent/empty/directory/non-JSON files. Usable = announce+data succeeds for 96 probe exporters;" + AGING_RULE + " after every crash image and every byte corruption the loaded entries are also USED: data for every exporter/template of the saved content is decoded (the decoder must cope with whatever the altered file made of them). Non-trivial = every case; distinct = file octets.",
                   assumptions=["write history of Dump: " + models["ipfix"]["source"],
@@ -698,8 +699,20 @@ def c15(tier):
     t0 = time.time()
     b = build("pipe")
     d, env = sched_env("c15")
-    res = [run_space(b, "pipe.c15", tier, env=env, hang_s=240)]
-    res.append(run_space(build("pipe15"), "pipe.c15locks", tier, env=env, hang_s=240))
+    other_fs = None
+    try:
+        if os.path.isdir("/dev/shm") and os.stat("/dev/shm").st_dev != os.stat(tempfile.gettempdir()).st_dev and os.access("/dev/shm", os.W_OK):
+            other_fs = tempfile.mkdtemp(prefix="verif_c15_", dir="/dev/shm")
+            env["VERIF_CACHE_DIR2"] = other_fs
+    except OSError:
+        other_fs = None
+    try:
+        res = [run_space(b, "pipe.c15", tier, env=env, hang_s=240)]
+        res.append(run_space(build("pipe15"), "pipe.c15locks", tier, env=env, hang_s=240))
+    finally:
+        if other_fs:
+            import shutil as _sh
+            _sh.rmtree(other_fs, ignore_errors=True)
     import shutil
     shutil.rmtree(d, ignore_errors=True)
     nruns = 20 if tier == "thorough" else 3
